@@ -385,7 +385,7 @@ func checkC16(c *Ctx, r *Report) {
 		return
 	}
 	r.rule("C16.R1", "a never-committed partition reads as -1: OffsetFetch maps 'no commit' to -1, or both FetchConsumerOffset implementations return -1 when nothing is stored", 1)
-	r.rule("C16.R2", "consumer offset key formats are injective: the topic interpolated next to a free-form group id is validated on every commit path, or the components are escaped", 2)
+	r.rule("C16.R2", "consumer offset key formats are injective: the topic interpolated next to a free-form group id is validated on every commit path, or the components are escaped; no normalising builder (path.Join/Clean, case folding, trimming) is applied to a free-form component", 3)
 	r.rule("C16.R3", "identity of (group, topic, partition, offset, metadata) between request, store call and response", 4)
 
 	// ---- R1
@@ -427,30 +427,58 @@ func checkC16(c *Ctx, r *Report) {
 			}
 		}
 	}
-	for _, kf := range []string{"consumerKey", "consumerOffsetKey"} {
+	for _, kf := range []string{"consumerKey", "consumerOffsetKey", "ConsumerOffsetKey"} {
 		fn := needFn(m, r, "C16.R2", pkgMetadata, kf)
 		if fn == nil {
 			continue
 		}
-		for _, sp := range findCalls(fn, "fmt.Sprintf") {
-			format, _ := constString(sp.Common().Args[0])
-			nStr := strings.Count(format, "%s")
-			escaped := false
-			for _, call := range callsIn(fn) {
-				n := calleeName(call.Common())
-				if strings.HasPrefix(n, "net/url.") || strings.Contains(n, "Escape") || strings.Contains(n, "base64") {
-					escaped = true
-				}
+		key := kf + " format is injective"
+		var ret *ssa.Return
+		nRet := 0
+		for _, b := range fn.Blocks {
+			if rt, ok := b.Instrs[len(b.Instrs)-1].(*ssa.Return); ok {
+				ret = rt
+				nRet++
 			}
-			key := kf + " format is injective"
-			switch {
-			case nStr <= 1 || escaped:
-				r.ok("C16.R2", key, m.Pos(sp.Pos()), fmt.Sprintf("%q", format))
-			case commitValidatesTopic:
-				r.ok("C16.R2", key, m.Pos(sp.Pos()), fmt.Sprintf("%q: topic validated on the commit path, only the group is free-form", format))
-			default:
-				r.viol("C16.R2", key, m.Pos(sp.Pos()), fmt.Sprintf("format %q interpolates %d free-form strings without escaping; OffsetCommit does not validate the topic, so (\"g:x\",\"t\") and (\"g\",\"x:t\") — resp. (\"g/offsets/x\",\"t\") and (\"g\",\"x/offsets/t\")… — share a key", format, nStr))
+		}
+		if nRet != 1 || len(ret.Results) != 1 {
+			r.undecided("C16.R2", key, m.Pos(fn.Pos()), "key builder is not a single-expression function")
+			continue
+		}
+		shape := mergeLits(strShape(m, ret.Results[0], 1))
+		escaped, cleans := false, ""
+		for _, call := range callsIn(fn) {
+			n := calleeName(call.Common())
+			if strings.HasPrefix(n, "net/url.") || strings.Contains(n, "Escape") || strings.Contains(n, "base64") {
+				escaped = true
 			}
+			switch n {
+			case "path.Join", "path.Clean", "path/filepath.Join", "path/filepath.Clean", "strings.ToLower", "strings.ToUpper", "strings.TrimSpace", "strings.Trim", "strings.TrimSuffix", "strings.TrimPrefix", "strings.Title":
+				cleans = n
+			}
+		}
+		nFree := 0
+		for _, cpt := range shape {
+			if cpt.Var == nil || cpt.Num {
+				continue
+			}
+			if cpt.Topic && commitValidatesTopic {
+				continue
+			}
+			nFree++
+		}
+		desc := shapeString(shape)
+		switch {
+		case cleans != "" && nFree > 0 && !escaped:
+			r.viol("C16.R2", key, m.Pos(ret.Pos()), fmt.Sprintf("key %s is built with %s, which normalises the free-form group id: distinct groups (\"a/b\" and \"a//b\", \"g\" and \"g/\") share one key and read each other's offsets", desc, cleans))
+		case nFree <= 1 || escaped:
+			why := "at most one free-form component"
+			if commitValidatesTopic {
+				why = "topic validated on the commit path, only the group is free-form"
+			}
+			r.ok("C16.R2", key, m.Pos(ret.Pos()), desc+": "+why)
+		default:
+			r.viol("C16.R2", key, m.Pos(ret.Pos()), fmt.Sprintf("key %s interpolates %d free-form strings without escaping; (\"g:x\",\"t\") and (\"g\",\"x:t\") — resp. (\"g/offsets/x\",\"t\") and (\"g\",\"x/offsets/t\") — share a key", desc, nFree))
 		}
 	}
 
